@@ -23,6 +23,7 @@ import gen_tables as GT
 import implutil as U
 
 STATIC = ["Model/IFMR.vo", "Model/IFMRSpec.vo"]
+EXTRA_PROPS = ["C09b"]
 IMPORTS = "From SSP Require Import Model.Sev Model.IFMR."
 FAMILIES = {"banerjee20": "uSSE_rapid", "banerjee20-delayed": "uSSE_delayed", "cosmic-rapid": "COSMIC_rapid",
             "cosmic-delayed": "COSMIC_delayed"}
@@ -186,18 +187,21 @@ def oracle_ifmr(chk, label, ifm, rng, npts=400):
     if any(b < a for a, b in zip(rank, rank[1:])):
         chk.fail("progenitor masses split into contiguous WD, NS, BH ranges in increasing order", label, "types not monotone")
     bnd = dict(WD=ifm.WD_mf, NS=ifm.NS_mf, BH=ifm.BH_mf)
+    seen = set()          # one report per clause and object, but keep scanning: different clauses fail at different masses
     for m, t, f in zip(ms, ty, mf):
-        if not (f > 0):
+        if not (f > 0) and "pos" not in seen:
+            seen.add("pos")
             chk.fail("remnant mass is positive", dict(label, mi=float(m)), float(f))
-            break
-        if f > m * (1 + 1e-12):
+        if f > m * (1 + 1e-12) and "le" not in seen:
+            seen.add("le")
             chk.fail("remnant mass is not larger than the progenitor", dict(label, mi=float(m)), float(f))
-            break
         if not (bnd[t].lower * (1 - 1e-12) <= f <= bnd[t].upper * (1 + 1e-12)):
-            chk.fail("remnant mass is inside the final-mass bounds declared for its class", dict(label, mi=float(m), cls=t),
-                     dict(mf=float(f), bounds=[float(bnd[t].lower), float(bnd[t].upper)]),
-                     wd_peak=bool(t == "WD" and f >= bnd[t].upper and f <= bnd[t].upper * (1 + 1e-9)))
-            break
+            peak = bool(t == "WD" and f >= bnd[t].upper and f <= bnd[t].upper * (1 + 1e-9))
+            key = "bnd_peak" if peak else "bnd"
+            if key not in seen:
+                seen.add(key)
+                chk.fail("remnant mass is inside the final-mass bounds declared for its class", dict(label, mi=float(m), cls=t),
+                         dict(mf=float(f), bounds=[float(bnd[t].lower), float(bnd[t].upper)]), wd_peak=peak)
     # scalar / numpy scalar / python float agree with the array
     for m in rng.sample(list(ms), 6):
         for form, val in (("np.float64", np.float64(m)), ("float", float(m)), ("0-d", np.array(m))):
@@ -218,15 +222,19 @@ def oracle_ifmr(chk, label, ifm, rng, npts=400):
     except Exception as e:  # noqa
         chk.notes.append("MassBins construction raised %s for %s" % (type(e).__name__, label))
         return
+    seen = set()
     for m, t, f in zip(ms, ty, mf):
         b = getattr(mb.bins, t)
         inside = int(np.sum((np.atleast_1d(b.lower) <= f) & (f < np.atleast_1d(b.upper))))
         if inside != 1:
+            peak = bool(t == "WD" and f >= ifm.WD_mf.upper * (1 - 1e-12))
+            key = "peak" if peak else "other"
+            if key in seen:
+                continue
+            seen.add(key)
             chk.fail("every remnant created during an evolution falls in exactly one bin of its class", dict(label, mi=float(m), cls=t),
-                     dict(mf=float(f), bins_containing=inside),
-                     wd_peak=bool(t == "WD" and f >= ifm.WD_mf.upper * (1 - 1e-12)),
+                     dict(mf=float(f), bins_containing=inside), wd_peak=peak,
                      ns_no_bin=bool(t == "NS" and np.atleast_1d(b.lower).size == 0))
-            break
 
 
 def classify(f):
@@ -249,7 +257,17 @@ def run(chk):
     # ---- T3 + oracle per sampled table -------------------------------------------------
     dis = []
     ncase = 0
-    sub = tables if chk.tier == "thorough" else rng.sample(tables, 14)
+    if chk.tier == "thorough":
+        sub = tables
+    else:
+        # always the grid ends and zero files of every family (where table structure differs most), plus a random few
+        key = lambda f: float(os.path.basename(f)[8:-4])
+        ends = []
+        for fam in set(t[1] for t in tables):
+            ft = [t for t in tables if t[1] == fam]
+            ends += [min(ft, key=lambda t: key(t[2])), max(ft, key=lambda t: key(t[2]))]
+        rest = [t for t in tables if t not in ends]
+        sub = ends + rng.sample(rest, 8)
     shard_exprs, shard_meta, defs = [], [], []
     for ti, (meth, fam, fn) in enumerate(sub):
         feh = float(os.path.basename(fn)[8:-4])
